@@ -27,7 +27,8 @@ def gen_time(rng, version_hint=None):
     if fmt == 'tt':
         return base + ':%02d' % rng.randint(0, 59), 'wf:hh:mm:ss:tt'
     if fmt == 'cc':
-        return base + '.%02d' % rng.randint(0, 99), 'wf:hh:mm:ss.cc'
+        return base + rng.choice(['.%02d' % rng.randint(0, 99), '.%d' % rng.randint(0, 9), '.%03d' % rng.randint(0, 999)]), \
+            'wf:hh:mm:ss.cc'
     return base, 'wf:hh:mm:ss'
 
 
@@ -46,7 +47,7 @@ def gen_date(rng):
     if fmt == 'dd-mmm-yy':
         return '%02d-%s-%02d' % (d, mon, y % 100), 'wf:' + fmt
     if fmt == 'dd-mmm-yyyy':
-        return '%02d-%s-%04d' % (d, mon, y), 'wf:' + fmt
+        return ('%02d-%s-%04d' if rng.chance(0.8) else '%d-%s-%04d') % (d, mon, y), 'wf:' + fmt
     if fmt == 'yy-mmm-dd':
         yy = rng.randint(32, 99)             # <= 31 would also read as dd-mmm-yy
         return '%02d-%s-%02d' % (yy, mon, d), 'wf:' + fmt
